@@ -535,6 +535,30 @@ def c10_solver_stream(chk, rng, tier):
                                "diagram_level_compilations": sum(len(r) for _, r in res), "diagram_level_agreements": ag,
                                "diagram_level_disagreements": len(ds), "dominance_queries_compared": ndq, "dominated_verdicts": ndom}
     if (ds or sdis) and not any(v[0] == "property" for v in chk.violations):
+        # the correspondence broke but every clause held so far: widen the search for a concrete failing input. Strictly admissible rules only
+        # (dk 1, 4: known finding D10 cannot occur with them), re-converging depth-free instances, every flavour with and without the cache
+        wr = Rng(chk.seed + 1077); winsts = []
+        for i in range(2000 if tier == "quick" else 10000):
+            r = wr.fork()
+            if i % 2 == 0:
+                winsts.append(gen_layered(r, nvars=r.range(5, 8), per_layer=r.range(3, 5), dom_max=r.range(2, 3), depth_free=True, dominance=4, rub=r.choice([0, 3]), dead=False))
+            else:
+                winsts.append(gen_layered(r, nvars=r.range(4, 7), per_layer=r.range(2, 4), dom_max=r.range(2, 3), dominance=1, rub=r.choice([0, 1, 3])))
+        wblocks = []
+        for I in winsts:
+            wblocks.append([I.line()] + [check_solve.sline(0, 1, 1, flv, cache, fr, w, 0, 1) for flv in (0, 1, 2) for cache in (0, 1) for fr in (0, 1) for w in (1, 2, 3)
+                                         if not (flv != 2 and cache == 0 and fr == 1)])
+        wimpl = check_solve.run_blocks("impl", wblocks, "c10w")
+        wopts = check_mdd.oracle_batch([(I.line(), ["O opt"]) for I in winsts])
+        nw = 0
+        for I, blk, il, op in zip(winsts, wblocks, wimpl, wopts):
+            for case, li in zip(blk[1:], il):
+                nw += 1; f = check_solve.kv(li)
+                if "CRASH" in f or "HANG" in f or f.get("x") != "1" or f.get("bv") != op[0]:
+                    chk.violation("property", "widened search: with the dominance checker (strictly admissible rule) the solver returns %s (exact=%s); optimum by exhaustive "
+                                              "enumeration is %s (%s)" % (f.get("bv"), f.get("x"), op[0], case), check_solve.describe(I, case, li, optimum=op[0]))
+        chk.cov["solver_level"]["widened_search_runs"] = nw
+    if (ds or sdis) and not any(v[0] == "property" for v in chk.violations):
         if ds:
             (I, meta, li, lm, case, why) = ds[0]
             chk.violation("unproved", "correspondence with the dominance store in the loop: diagram model and code differ on %s (%s)" % (why, case),
